@@ -43,7 +43,7 @@ PROPS["C01"] = dict(
     level_text="Every ingredient the correct-rounding theorems rest on is a discharged obligation: each of the 651 Lemire "
                "rows, every integer power table, every Clinger limit (safety direction), SWAR digit kernels on full "
                "domains. The end-to-end rounding theorems themselves are listed as assumptions.",
-    verus_quick=[_vc("pf_lemire_mul")],
+    verus_quick=[_vc("pf_lemire_mul"), _vc("pf_bell_err")],
     rows_quick=["pf-lemire-table", "pf-lemire-constants", "pf-int-powers", "pf-limits"],
     assumptions=FLOAT_THEOREMS,
 )
@@ -187,13 +187,14 @@ PROPS["C19"] = dict(
     level_text="compute_float(q, w, lossy=true) equals the exact call wherever that is conclusive (all q, w; thorough tier); "
                "representation contract with symbolic lossy (quick). The <= 1 ULP bound in inconclusive cases is assumed "
                "(Eisel-Lemire error analysis).",
+    verus_quick=[_vc("pf_bell_err")],
     assumptions=FLOAT_THEOREMS + ["the tokenizer does not take the lossy flag at all (parse_number has no access to it) - by inspection of its signature: it receives &Options but the C11/C12 harness contract fixes its result independently of lossy"],
 )
 PROPS["C16"] = dict(
     title="Cargo features are additive",
     level_text="The same specification (canonical numeral / reference scanner) is discharged in each feature set, hence "
                "results are equal across sets; inherits the bounds of C03/C04.",
-    verus_quick=DIV128_T + WI_COMPACT,
+    verus_quick=DIV128_T + WI_COMPACT + [_vc("pf_bell_err")],
     assumptions=["two feature sets cannot be linked into one program; equality is by 'equal to the same spec'"],
 )
 PROPS["C18"] = dict(
